@@ -21,13 +21,15 @@ for d in sorted(glob.glob("/verif/seeded/*_C*")):
             if mm:
                 cur = mm.group(1); verdict.setdefault(cur, "passed"); verdict[cur] = "passed"
                 continue
-            if cur and ("VIOLATION" in line or "signature:" in line or "exit=1" in line):
+            if cur and ("VIOLATION" in line or "signature:" in line):
                 verdict[cur] = "CAUGHT"
             if cur and "MACHINERY" in line:
                 verdict[cur] = "machinery"
+            if cur and "exit=1" in line and verdict[cur] != "CAUGHT":
+                verdict[cur] = "machinery"          # exit 1 without a VIOLATION line: the harness crashed
     caught = [k for k, v in verdict.items() if v == "CAUGHT"]
     missed = [k for k, v in verdict.items() if v != "CAUGHT"]
-    summ = re.sub(r"\s+", " ", str(m.get("summary", "")))[:230]
+    summ = re.sub(r"\s+", " ", str(m.get("summary", ""))).replace("|", "/")[:230]
     rows.append("| %s | %s | %s | %s | %s | %s |" % (sid, m.get("property", "?"), summ, "yes" if demo_ok else "?",
                                                     ", ".join(sorted(caught)) or "-", ", ".join(sorted(missed)) or "-"))
 print("| seed | property | change (abridged) | demo fails with / passes without | caught by (quick tier) | ran without alarm |")
